@@ -1,6 +1,7 @@
 package main
 
 import (
+	"fmt"
 	"math/rand"
 
 	"github.com/evolbioinfo/gotree/tree"
@@ -101,9 +102,18 @@ func topoEvent(n int, rooted bool, label string) *CEvent {
 	if (rooted && n < 2) || (!rooted && n < 3) {
 		kind = "GeneratorTooSmall"
 	}
-	ev := &CEvent{Kind: kind, Prop: "C16", Case: label, Args: map[string]interface{}{"gen": "topologies", "n": n, "rooted": rooted}}
+	args := map[string]interface{}{"gen": "topologies", "n": n, "rooted": rooted}
+	var names []string
+	if (n+len(label))%2 == 0 && n >= 1 {
+		// caller-supplied tip names
+		for i := 0; i < n; i++ {
+			names = append(names, fmt.Sprintf("sp_%c%d", 'a'+i, i))
+		}
+		args["names"] = names
+	}
+	ev := &CEvent{Kind: kind, Prop: "C16", Case: label, Args: args}
 	ev.guard(calcTimeout, func() error {
-		ts, err := tree.AllTopologies(n, rooted)
+		ts, err := tree.AllTopologies(n, rooted, names...)
 		if err != nil {
 			return err
 		}
